@@ -58,7 +58,7 @@ class C15(Check):
             "algorithms: the query written by Transfer.In must verify under the harness's own RFC 8945 verifier (names in "
             "canonical form in the digest), chains signed by the harness's own signer must be delivered exactly and an "
             "altered envelope of such a chain must end the transfer, Transfer.Out in a dns.Server must accept a request "
-            "signed that way and write envelopes that verify. A case is the "
+            "signed that way and write envelopes that verify; sender compositions of an envelope beside the record split (shape.go): question section in every envelope / only in the first / only in the first in another case / from the second on in another case / alternating / first and last, AA cleared, RA, RD, an OPT record before the TSIG record, compression per envelope, crossed with every composition of small AXFR / IXFR / AXFR-style streams and the single-SOA answers, TSIG off / on (both signers), stream and datagram connection: delivered exactly (C15/exact/envelope-shape), and wrong ID / RCODE / early end / unsigned / otherwise keyed / altered envelope in such shapes still reported. A case is the "
             "(kind, tsig, query, read list) tuple; "
             "non-trivial when at least two reads; distinct by hash of (function, arguments, output).")
     partial = [
